@@ -112,6 +112,15 @@ def c01stepCore (s : State Tbl) (cmd : String) (args : List String) : State Tbl 
           let r := step s2 (.dml q (if has then dmlFn "delwhere" k else some))
           (r.1, showOut r.2 ++ "|" ++ showState r.1)
     | _, _, _ => bad
+  | "createifne", [p] =>
+    -- CREATE TABLE IF NOT EXISTS: a new table like CREATE TABLE; an existing one is only read (as by SELECT)
+    match p.toNat? with
+    | some p =>
+      if (s.disk p).isSome || (s.cache p).isSome then
+        let r := step s (.select p)
+        (r.1, (match r.2 with | .failed => "failed" | _ => "ok") ++ "|" ++ showState r.1)
+      else run (.create p (0, []))
+    | none => bad
   | "create", [p] => match p.toNat? with | some p => run (.create p (0, [])) | none => bad
   | "dstdin", [c] =>
     -- data piped in at the start of the run: the STDIN table exists from now on, its restore point is the data
